@@ -367,3 +367,13 @@ Print Assumptions c08_code_close_step.
 Print Assumptions c08_code_is_ended.
 Print Assumptions c08_code_body_mode.
 Print Assumptions c08_code_nonvacuous.
+
+(** One level up: [Call<RecvBody>::read] of src/client/call.rs (the reader taken out of its option, the ended short-circuit, then
+    [BodyReader::read]), translated on every run ([gen_call_read]), corresponds to the model's [call_read]
+    (proofs/Gen2_equiv_call2.v): same reader afterwards, same counts, the output at the front of the buffer and nothing else touched. *)
+From Hoot.proofs Require Import Gen2_equiv_call2.
+Theorem c08_code_call_read : forall c input dst,
+  match c_reader c with Some r => limit_fits r input dst | None => True end ->
+  crd_rel dst (gen_call_read (c_reader c) (c_stop c) input dst) (call_read c input (len dst)).
+Proof. exact gen_call_read_equiv. Qed.
+Print Assumptions c08_code_call_read.
